@@ -55,6 +55,10 @@ func tagMsg(kind int, s, r uint32, g *gen) []byte {
 		return enc(append(hdr(2), body...))
 	case 2: // fragment carrying a query
 		return []byte(fmt.Sprintf("?OTR|%08x|%08x,00001,00001,?OTRv3?,", s, r))
+	case 4: // D-H Key whose MPI announces 192 bytes and carries a few
+		return enc(append(append(hdr(0x0a), 0, 0, 0, 0xc0), g.bytesN(1+g.r.Intn(8))...))
+	case 5: // a key exchange message type - or a type byte nobody knows - over a body of random bytes
+		return enc(append(hdr([]byte{0x0a, 0x11, 0x12, 0x02, 0xee, 0x07}[g.r.Intn(6)]), g.bytesN(g.r.Intn(40))...))
 	default: // first piece of a longer stream
 		return []byte(fmt.Sprintf("?OTR|%08x|%08x,00001,00002,?OTR:AAMD,", s, r))
 	}
@@ -104,7 +108,28 @@ func (g *gen) tagsScenario(w *world) {
 	a := w.newParty(partyCfg{policies: 4, keyIdx: 0, errh: g.r.Intn(2) == 0, tag: 0x100 + g.r.Uint32()%0xfffffe00, fragSize: []int{0, 0, 90, 200}[g.r.Intn(4)]})
 	b := w.newParty(partyCfg{policies: 4, keyIdx: 1, errh: g.r.Intn(2) == 0, tag: 0x100 + g.r.Uint32()%0xfffffe00})
 	l := &link{w: w, a: a, b: b}
-	bound := g.r.Intn(3) != 0
+	// three states: nothing seen yet / committed to OTRv3 but not bound to a peer instance / bound
+	st := g.r.Intn(4)
+	bound := st >= 2
+	committed, preset := st == 1, false
+	if committed {
+		if preset = g.r.Intn(3) == 0; preset {
+			// created for OTRv3 by the client (NewConversationWithVersion)
+			delete(w.parties, b.id)
+			b = w.newParty(partyCfg{version: 3, policies: 4, keyIdx: 1, errh: g.r.Intn(2) == 0, tag: 0x100 + g.r.Uint32()%0xfffffe00})
+			l.b = b
+		} else {
+			// has received the query and sent its D-H Commit, which is still on its way
+			l.enqueue(a, []otr3.ValidMessage{w.query(a)})
+			l.deliver(true)
+			for _, m := range l.qba {
+				checkEmitted(w, b, []otr3.ValidMessage{m})
+			}
+		}
+		if cs := otr3.VerifSnapshot(b.c); cs.Version != 3 || cs.TheirTag != 0 {
+			committed = false // (not the state this branch is about)
+		}
+	}
 	if bound {
 		l.enqueue(a, []otr3.ValidMessage{w.query(a)})
 		for i := 0; i < 30 && (len(l.qab) > 0 || len(l.qba) > 0); i++ {
@@ -122,20 +147,41 @@ func (g *gen) tagsScenario(w *world) {
 	sa := otr3.VerifSnapshot(a.c)
 	own, peer := sb.OurTag, sa.OurTag
 	vals := []uint32{0, 1, 0xff, 0x100, own, peer, 0x12345678}
-	for trial := 0; trial < 10 && !w.dead; trial++ {
+	disturbed := false // an injected message was accepted (reply, step of the key exchange, stored fragment)
+	strayDesc := ""
+	trials := 10
+	if committed {
+		trials = 1 + g.r.Intn(4) // few, so that often none of them is accepted and the genuine exchange below is run
+	}
+	for trial := 0; trial < trials && !w.dead; trial++ {
 		s, r := vals[g.r.Intn(len(vals))], vals[g.r.Intn(len(vals))]
-		kind := g.r.Intn(4)
+		kind := g.r.Intn(6)
+		if committed && g.r.Intn(3) != 0 {
+			kind = []int{0, 4, 5}[g.r.Intn(3)] // nothing that a conversation waiting for a D-H Key accepts
+		}
+		if committed && g.r.Intn(2) == 0 {
+			// valid tags naming a stranger (or somebody claiming to be the peer), addressed to this instance or to nobody
+			s, r = []uint32{0x100, 0x12345678, peer, 0x100 + g.r.Uint32()%0xfffffe00}[g.r.Intn(4)], []uint32{0, own}[g.r.Intn(2)]
+		}
 		m := tagMsg(kind, s, r, g)
 		// the routing helper reports exactly the two tags the message or fragment carries
 		if xo, xt, xok := xtags(w, m); !xok || xo != r || xt != s {
 			olog.viol("C15", "extract-wrong-tags", fmt.Sprintf("ExtractInstanceTags(%.50q…) = (%#x,%#x,%v), the message carries sender=%#x receiver=%#x", m, xo, xt, xok, s, r))
 		}
 		before := otr3.VerifSnapshot(b.c)
-		plain, ts, _, pan := w.recv(b, m)
+		plain, ts, rerr, pan := w.recv(b, m)
 		after := otr3.VerifSnapshot(b.c)
 		if pan {
 			olog.viol("C13", "receive-panics", fmt.Sprintf("Receive panicked on a message with tags %x/%x", s, r))
 			return
+		}
+		if d := snapDiff(before, after); d != "no-visible-state-change" && d != "theirTag" {
+			disturbed = true
+		}
+		for _, t := range ts {
+			if !isErrorReply(t) {
+				disturbed = true
+			}
 		}
 		olog.ok("C15")
 		wellFormed := s >= 0x100 && (r == 0 || r >= 0x100)
@@ -163,8 +209,72 @@ func (g *gen) tagsScenario(w *world) {
 			}
 		} else if before.TheirTag == 0 && after.TheirTag != 0 && after.TheirTag != s {
 			olog.viol("C15", "wrong-peer-tag-learned", desc)
+		} else if before.TheirTag == 0 && after.TheirTag != 0 && (rerr != nil || (plain == nil && len(ts) == 0 && snapDiff(before, after) == "theirTag")) {
+			// the message was rejected (an error), or had no effect whatsoever: not an accepted message
+			strayDesc = fmt.Sprintf("Receive(%q) in a conversation %s (own instance %#x, no peer instance yet) returns err=%v plain=%v replies=%d, and the conversation is bound to peer instance %#x",
+				m, map[bool]string{true: "committed to OTRv3", false: "that has seen nothing yet"}[before.Version == 3], before.OurTag, rerr, plain != nil, len(ts), after.TheirTag)
+			olog.viol("C15", "rejected-message-binds-peer", strayDesc)
 		}
 		// anything the injection caused to be emitted is dropped (it is addressed to a phantom)
+	}
+	// committed state: nothing of the noise was accepted, so the key exchange with the genuine peer completes
+	if committed {
+		g.dist["tags:committed-to-v3-not-bound"]++
+	}
+	if committed && !disturbed && !w.dead {
+		g.dist["tags:committed-to-v3-not-bound:genuine-exchange-after-noise"]++
+		why := "none of the injected messages was accepted"
+		if strayDesc != "" {
+			why = strayDesc
+		}
+		if preset {
+			// (a conversation made by NewConversationWithVersion never chooses a long-term key and cannot sign: the
+			// exchange is followed up to the point where the genuine peer answers this conversation's D-H Commit)
+			l.enqueue(a, []otr3.ValidMessage{w.query(a)})
+			l.deliver(true)
+			answered := len(l.qba) == 0 // (no D-H Commit: nothing to answer)
+			for len(l.qba) > 0 && !w.dead {
+				checkEmitted(w, b, []otr3.ValidMessage{l.qba[0]})
+				m := l.qba[0]
+				l.qba = l.qba[1:]
+				_, ts, _, _ := w.recv(a, m)
+				for _, t := range ts {
+					if !isErrorReply(t) {
+						answered = true
+					}
+				}
+			}
+			l.qab = nil
+			olog.ok("C15")
+			if !answered && !w.dead {
+				olog.viol("C15", "genuine-peer-locked-out", fmt.Sprintf("the genuine peer (instance %#x) does not answer the D-H Commit the conversation sends after tag noise (it is bound to %#x): %s",
+					otr3.VerifSnapshot(a.c).OurTag, otr3.VerifSnapshot(b.c).TheirTag, why))
+			}
+		} else {
+			held := len(l.qba) // the D-H Commit, looked at when it was emitted
+			for i := 0; i < 30 && (len(l.qab) > 0 || len(l.qba) > 0) && !w.dead; i++ {
+				if len(l.qba) > 0 {
+					if held > 0 {
+						held--
+					} else {
+						checkEmitted(w, b, []otr3.ValidMessage{l.qba[0]})
+					}
+					l.deliver(false)
+				}
+				if len(l.qab) > 0 {
+					checkEmitted(w, a, []otr3.ValidMessage{l.qab[0]})
+					l.deliver(true)
+				}
+			}
+			olog.ok("C15")
+			fa, fb := otr3.VerifSnapshot(a.c), otr3.VerifSnapshot(b.c)
+			if !w.dead && (!a.c.IsEncrypted() || !b.c.IsEncrypted() || fb.TheirTag != fa.OurTag) {
+				olog.viol("C15", "genuine-peer-locked-out", fmt.Sprintf("the key exchange with the genuine peer (instance %#x) does not complete after tag noise (encrypted: %v/%v, bound to %#x): %s",
+					fa.OurTag, a.c.IsEncrypted(), b.c.IsEncrypted(), fb.TheirTag, why))
+			} else {
+				bound = true // and the probe below is delivered
+			}
+		}
 	}
 	// the genuine peer must still get through
 	if bound && !w.dead {
@@ -216,6 +326,15 @@ func (g *gen) ownTagScenario(w *world) {
 		olog.viol("C15", "own-tag-regenerated", "an existing own instance tag was replaced")
 	}
 	checkEmitted(w, a, ts2)
+	// the application may preset the own tag (InitializeInstanceTag): the conversation must not end up
+	// using one below 0x100 either way
+	preset := uint32(1 + g.r.Intn(0xff))
+	b := w.newParty(partyCfg{policies: 4, keyIdx: 1, tag: preset})
+	_, ts3, _, _ := w.recv(b, tagMsg(1, 0x4242, 0, g))
+	olog.ok("C15")
+	if sb := otr3.VerifSnapshot(b.c); sb.OurTag != 0 && sb.OurTag < 0x100 {
+		olog.viol("C15", "own-tag-below-0x100:preset-by-application", fmt.Sprintf("InitializeInstanceTag(%#x) is accepted: the conversation uses the own instance tag %#x and writes it into %d message(s) (a conforming peer rejects them as malformed)", preset, sb.OurTag, len(ts3)))
+	}
 }
 
 func init() {
